@@ -176,7 +176,8 @@ class Compiler:
             if c_expression is not None and is_aggregate(c_expression):
                 raise CompilationError('aggregates are not allowed in FROM clause')
 
-            if node.open and node.close and node.open > node.close:
+            # The CLOSE clause is True when present without a date.
+            if node.open and node.close and node.close is not True and node.open > node.close:
                 raise CompilationError('CLOSE date must follow OPEN date')
 
             # Apply OPEN, CLOSE, and CLEAR clauses.
